@@ -119,7 +119,7 @@ def nontrivial(sim):
 def run(ctx):
     import random
 
-    N = ctx.n(1500, 40000)
+    N = ctx.n(1500, 12000)
     cases = []
     for k in range(N):
         small = k % 3 != 0
